@@ -115,17 +115,78 @@ fn hard_fail(bytes: usize) -> ! {
     }
 }
 
+// ---- watchdog: one slot per worker thread; a monitor thread reports a call that makes no progress for a long time ----
+use std::sync::atomic::{AtomicPtr, AtomicU64, AtomicUsize, Ordering};
+const SLOTS: usize = 64;
+struct Slot {
+    ptr: AtomicPtr<u8>,
+    len: AtomicUsize,
+    dec: AtomicUsize,
+    calls: AtomicU64,
+}
+#[allow(clippy::declare_interior_mutable_const)]
+const EMPTY: Slot = Slot { ptr: AtomicPtr::new(std::ptr::null_mut()), len: AtomicUsize::new(0), dec: AtomicUsize::new(0), calls: AtomicU64::new(0) };
+static WATCH: [Slot; SLOTS] = [EMPTY; SLOTS];
+static NEXT_SLOT: AtomicUsize = AtomicUsize::new(0);
+thread_local! {
+    static MY_SLOT: Cell<usize> = const { Cell::new(usize::MAX) };
+}
+fn my_slot() -> usize {
+    MY_SLOT.with(|s| {
+        if s.get() == usize::MAX {
+            s.set(NEXT_SLOT.fetch_add(1, Ordering::Relaxed) % SLOTS);
+        }
+        s.get()
+    })
+}
+/// Start the monitor: if one guarded call is still running after `secs` seconds of wall time, the input is dumped and the
+/// process exits 2 (INCONCLUSIVE - wall time is never used as a correctness verdict).
+pub fn start_watchdog(property: &'static str, secs: u64, dump_dir: std::path::PathBuf) {
+    std::thread::spawn(move || {
+        let mut last: Vec<(u64, *mut u8)> = vec![(0, std::ptr::null_mut()); SLOTS];
+        let mut stuck: Vec<u64> = vec![0; SLOTS];
+        loop {
+            std::thread::sleep(std::time::Duration::from_secs(5));
+            for (i, s) in WATCH.iter().enumerate() {
+                let now = (s.calls.load(Ordering::Relaxed), s.ptr.load(Ordering::Relaxed));
+                if !now.1.is_null() && now == last[i] {
+                    stuck[i] += 5;
+                } else {
+                    stuck[i] = 0;
+                }
+                last[i] = now;
+                if stuck[i] >= secs {
+                    let n = s.len.load(Ordering::Relaxed).min(1 << 16);
+                    let bytes = unsafe { std::slice::from_raw_parts(now.1, n) }.to_vec();
+                    let _ = std::fs::create_dir_all(&dump_dir);
+                    let path = dump_dir.join("watchdog-hang.json");
+                    let hexs: String = bytes.iter().map(|b| format!("{b:02x}")).collect();
+                    let _ = std::fs::write(&path, format!("{{\"property\":\"{property}\",\"check\":\"decode\",\"sig\":\"watchdog\",\"input\":{{\"decoder_index\":{},\"bytes\":\"{hexs}\"}}}}\n", s.dec.load(Ordering::Relaxed)));
+                    println!("INCONCLUSIVE property={property} hang? one guarded call has been running for more than {secs} s of wall time; input saved to {}", path.display());
+                    std::process::exit(2);
+                }
+            }
+        }
+    });
+}
+
 /// Run `f` with allocation accounting: returns (result, bytes allocated by this thread during the call).
 /// `input`/`decoder` are registered for the hard-cap report.
 pub fn measured<T>(input: &[u8], decoder: usize, hard_cap: usize, f: impl FnOnce() -> T) -> (T, usize) {
     CUR_PTR.with(|c| c.set(input.as_ptr()));
     CUR_LEN.with(|c| c.set(input.len()));
     CUR_DEC.with(|c| c.set(decoder));
+    let slot = &WATCH[my_slot()];
+    slot.len.store(input.len(), Ordering::Relaxed);
+    slot.dec.store(decoder, Ordering::Relaxed);
+    slot.calls.fetch_add(1, Ordering::Relaxed);
+    slot.ptr.store(input.as_ptr() as *mut u8, Ordering::Relaxed);
     BYTES.with(|b| b.set(0));
     CAP.with(|c| c.set(hard_cap));
     let r = f();
     CAP.with(|c| c.set(usize::MAX));
     let n = BYTES.with(|b| b.get());
+    slot.ptr.store(std::ptr::null_mut(), Ordering::Relaxed);
     CUR_PTR.with(|c| c.set(std::ptr::null()));
     (r, n)
 }
